@@ -57,7 +57,7 @@ struct Universe {
 
 fn universe(n: usize) -> Universe {
     // honest chain of n blocks plus a one-block fork at the end for equal heights
-    let ncfg = NodeCfg { gp: 100, heartbeat: 100, social_stake: 0, loading_completed: true };
+    let ncfg = NodeCfg { gp: 100, heartbeat: 100, social_stake: 0, loading_completed: true, prune: 8 };
     let mut blocks = vec![];
     for i in 0..n {
         blocks.push(BlockSpec {
@@ -79,7 +79,7 @@ fn universe(n: usize) -> Universe {
 pub fn run_case(case: &Case, uni: &Universe) -> (Vec<(String, String)>, Info) {
     let mut info = Info::default();
     let mut v: Vec<(String, String)> = vec![];
-    let ncfg = NodeCfg { gp: 100, heartbeat: 100, social_stake: 0, loading_completed: true };
+    let ncfg = NodeCfg { gp: 100, heartbeat: 100, social_stake: 0, loading_completed: true, prune: 8 };
     let clock = Arc::new(AtomicU64::new(5_000_000));
     let mut n = NetNode::new(0, ncfg, clock.clone(), 0, case.batch.max(1) as usize, MemIO::new());
     let _ = n.init();
@@ -280,7 +280,7 @@ pub fn run_case(case: &Case, uni: &Universe) -> (Vec<(String, String)>, Info) {
 
 /// A block whose fetch always fails is retried only a bounded number of times.
 fn check_retry_bound(ctx: &mut Ctx, uni: &Universe) {
-    let ncfg = NodeCfg { gp: 100, heartbeat: 100, social_stake: 0, loading_completed: true };
+    let ncfg = NodeCfg { gp: 100, heartbeat: 100, social_stake: 0, loading_completed: true, prune: 8 };
     let clock = Arc::new(AtomicU64::new(5_000_000));
     let mut n = NetNode::new(0, ncfg, clock.clone(), 0, 2, MemIO::new());
     let _ = n.init();
